@@ -380,7 +380,14 @@ Proof.
         destruct (bc =? b) eqn:EB; simpl; auto.
         apply Z.eqb_eq in EB. subst b. fold start. now rewrite ES.
       * intros b. now apply G1.
-    + destruct (cs_slots T cs) as [|s0 sl] eqn:ESl; [discriminate|].
+    + destruct (cs_slots T cs) as [|s0 sl] eqn:ESl.
+      { (* a global channel without slots: nothing to distribute *)
+        inversion H; subst d'. split; auto. intros s t Ht. split.
+        - intros b q. unfold SamplerSpec.contrib_local. rewrite EG. fold bc.
+          unfold val. rewrite L1.
+          destruct (bc =? b) eqn:EB; simpl; auto.
+          apply Z.eqb_eq in EB. subst b. fold start. rewrite ES, ESl. reflexivity.
+        - intros b. now apply G1. }
       inversion H; subst d'; clear H.
       split.
       * pose proof (touch_loop N bc) as TL. clear TL.
@@ -593,6 +600,34 @@ Proof.
       now rewrite val_prepared.
 Qed.
 
+(** [to_nested_dict] never raises: every sequence has a per-atom view *)
+Lemma chan_step_total : forall all_local N mt mend (d : ndict) ccs,
+  chan_step all_local N mt mend d ccs <> None.
+Proof.
+  intros all_local N mt mend d [c cs]. unfold Sampler.chan_step.
+  destruct (is_global_branch T all_local c); [|discriminate].
+  destruct ((if c_basis T c =? 2 then mend else 0) =? 0); [discriminate|].
+  destruct (cs_slots T cs); discriminate.
+Qed.
+
+Lemma fold_opt_total : forall all_local N mt mend (l : list (chan * csamples)) (d : ndict),
+  fold_opt (chan_step all_local N mt mend) l d <> None.
+Proof.
+  intros all_local N mt mend. induction l as [|ccs r IH]; intros d; simpl; [discriminate|].
+  destruct (chan_step all_local N mt mend d ccs) eqn:E; [apply IH|].
+  exfalso. now apply (chan_step_total all_local N mt mend d ccs).
+Qed.
+
+Theorem nested_total : forall all_local (chans : list chan) mask,
+  exists d, nested all_local chans mask = Some d.
+Proof.
+  intros all_local chans mask.
+  destruct (nested all_local chans mask) as [d|] eqn:E; [now exists d|].
+  exfalso. unfold Sampler.nested in E.
+  destruct (slm_mask T chans mask) as [mt mend].
+  now apply fold_opt_total in E.
+Qed.
+
 (** * Consequences: who receives what *)
 Lemma flat_map_nil : forall (A B : Type) (f : A -> list B) (l : list A),
   (forall x, In x l -> f x = []) -> flat_map f l = [].
@@ -708,17 +743,17 @@ Definition xy_pulse_chan : chan Z :=
 Definition xy_empty_chan : chan Z :=
   mkChan Z [mkSlot Z (KTarget Z) (-1) 0 [0; 1]] [] 0 true 2 false [].
 
-(** XY mode, SLM mask on atom 0, two global microwave channels of which one
-    has no pulse: [to_nested_dict()] raises (IndexError on [cs.slots[0]]) *)
-Lemma nested_dict_crash_refuted :
-  exists (chans : list (chan Z)) (mask : list Z),
-    forallb (wf_chan Z) chans = true
-    /\ nested Z 0 1 Z.add Z.mul false chans mask = None
-    /\ nested Z 0 1 Z.add Z.mul true chans mask <> None.
-Proof.
-  exists [xy_pulse_chan; xy_empty_chan], [0].
-  repeat split; vm_compute; congruence.
-Qed.
+(** regression of the input that raised IndexError before /repo commit
+    568e94cf (XY mode, SLM mask on atom 0, two global microwave channels of
+    which one has no pulse): the per-atom view now exists, the masked atom 0
+    receives nothing while the mask is on, atom 1 receives the pulse *)
+Example nested_dict_former_crash :
+  exists d,
+    nested Z 0 1 Z.add Z.mul false [xy_pulse_chan; xy_empty_chan] [0] = Some d
+    /\ look Z d (KL 2 0) = None
+    /\ look Z d (KL 2 1) = Some (mkQ Z [3; 3] [0; 0] [0; 0])
+    /\ look Z d (KG 2) = Some (mkQ Z [0; 0] [0; 0] [0; 0]).
+Proof. eexists. vm_compute. repeat split. Qed.
 
 (** the hypotheses of the theorems are satisfiable, and on such a channel the
     rendering is the expected one *)
